@@ -45,7 +45,7 @@ TOKENS = ["{", "}", "(", ")", ":", "$", "@", "...", "!", "=", "[", "]", "a", "on
 FAULT_DOC = "{ a nn t { a b t { a } } l { a } x: b(x: 2) }"
 FAULT_PATHS = [("a",), ("nn",), ("t",), ("t", "a"), ("t", "b"), ("t", "t"), ("l",), ("l", 0, "a"), ("x",)]
 FAULT_KINDS = ["raise", "raise_te", "raise_te_ctor", "raise_shared", "return_exc", "none", "value", "raise_msgattr"]
-COERCERS = ("default", "recording", "replacing", "suspending")
+COERCERS = ("default", "recording", "replacing", "suspending", "returning-none", "returning-empty-dict")
 
 
 class RejDirective:
@@ -116,6 +116,19 @@ async def suspending_coercer(exception, error):
     return new
 
 
+async def none_coercer(exception, error):
+    REC.calls.append(error)
+    REC.returned.append(None)
+    return None
+
+
+async def empty_coercer(exception, error):
+    REC.calls.append(error)
+    new = {}
+    REC.returned.append(new)
+    return new
+
+
 def engine(kind):
     kw = {}
     if kind == "recording":
@@ -124,6 +137,10 @@ def engine(kind):
         kw["error_coercer"] = replacing_coercer
     elif kind == "suspending":
         kw["error_coercer"] = suspending_coercer
+    elif kind == "returning-none":
+        kw["error_coercer"] = none_coercer
+    elif kind == "returning-empty-dict":
+        kw["error_coercer"] = empty_coercer
     return explore.engine_for(("C18", kind), SCHEMA, directive_impl={"rej": RejDirective()}, **kw)
 
 
